@@ -151,8 +151,16 @@ def run_property(prop, harnesses, tier, seed, jobs=None, opts=None, out=sys.stdo
     results = []
     ctxm = mp.get_context("fork")
     with ctxm.Pool(jobs, maxtasksperchild=50) as pool:
-        for r in pool.imap_unordered(_run_one, tasks, chunksize=1):
-            results.append(r)
+        # many tiny instances: hand them out in chunks (the dispatch of single tasks would dominate); the expensive ones come
+        # first (sorted by cost) and still go out one by one because imap hands out chunks in order
+        big = [t for t in tasks if t[1].get("_cost", 0) >= 5000]
+        small = [t for t in tasks if t[1].get("_cost", 0) < 5000]
+        its = [pool.imap_unordered(_run_one, big, chunksize=1)] if big else []
+        if small:
+            its.append(pool.imap_unordered(_run_one, small, chunksize=max(1, min(64, len(small) // (jobs * 8)))))
+        for it in its:
+            for r in it:
+                results.append(r)
     agg = {"paths": 0, "forked_paths": 0, "infeasible": 0, "queries": 0, "solver_s": 0.0, "checks": 0, "forks": 0}
     covers, notes = {}, {}
     viols, known_hits, problems = [], [], []
